@@ -28,7 +28,10 @@ func DefaultParams() Params {
 
 // Validate validates a set of params
 func (p Params) Validate() error {
-	return validatePoolCreationFee(p.PoolCreationFee)
+	if err := validatePoolCreationFee(p.PoolCreationFee); err != nil {
+		return err
+	}
+	return validateTaxRate(p.TaxRate)
 }
 
 // String returns a human readable string representation of the parameters.
